@@ -1,6 +1,7 @@
 /- Helper lemmas for C03. -/
 import SigV4.Spec.ValidateSpec
 import SigV4.Lemmas.C04
+import SigV4.Lemmas.Headers
 
 namespace SigV4
 
@@ -212,5 +213,85 @@ theorem validateSignature_calls {σ : Type} (H : Bytes → Bytes) (P : Provider 
       · exact id
       · exact id
       · split <;> exact id
+
+/-! ### `latin1ToString` is injective -/
+
+/-- The byte a two-byte UTF-8 sequence of a code point below 256 came from. -/
+def c03_latin1Dec (h l : UInt8) : UInt8 := ((h &&& (3 : UInt8)) <<< (6 : UInt8)) ||| (l &&& (0x3F : UInt8))
+
+set_option maxRecDepth 100000 in
+theorem c03_latin1_lead_facts : ∀ x : UInt8,
+    ¬ ((0xC0 : UInt8) ||| (x >>> (6 : UInt8))) < 0x80 ∧
+    (¬ x < 0x80 →
+      c03_latin1Dec ((0xC0 : UInt8) ||| (x >>> (6 : UInt8))) ((0x80 : UInt8) ||| (x &&& (0x3F : UInt8))) = x) := by
+  apply u8_forall
+  decide
+
+theorem c03_latin1Byte_lt (x : UInt8) (h : x < 0x80) : latin1Byte x = [x] := by
+  unfold latin1Byte
+  rw [if_pos h]
+
+theorem c03_latin1Byte_ge (x : UInt8) (h : ¬ x < 0x80) :
+    latin1Byte x = [(0xC0 : UInt8) ||| (x >>> (6 : UInt8)), (0x80 : UInt8) ||| (x &&& (0x3F : UInt8))] := by
+  unfold latin1Byte
+  rw [if_neg h]
+
+theorem c03_latin1Byte_append_inj (x y : UInt8) (r r' : Bytes)
+    (h : latin1Byte x ++ r = latin1Byte y ++ r') : x = y ∧ r = r' := by
+  by_cases hx : x < 0x80
+  · by_cases hy : y < 0x80
+    · rw [c03_latin1Byte_lt x hx, c03_latin1Byte_lt y hy] at h
+      simp only [List.cons_append, List.nil_append, List.cons.injEq] at h
+      exact h
+    · rw [c03_latin1Byte_lt x hx, c03_latin1Byte_ge y hy] at h
+      simp only [List.cons_append, List.nil_append, List.cons.injEq] at h
+      rw [h.1] at hx
+      exact absurd hx (c03_latin1_lead_facts y).1
+  · by_cases hy : y < 0x80
+    · rw [c03_latin1Byte_ge x hx, c03_latin1Byte_lt y hy] at h
+      simp only [List.cons_append, List.nil_append, List.cons.injEq] at h
+      rw [← h.1] at hy
+      exact absurd hy (c03_latin1_lead_facts x).1
+    · rw [c03_latin1Byte_ge x hx, c03_latin1Byte_ge y hy] at h
+      simp only [List.cons_append, List.nil_append, List.cons.injEq] at h
+      obtain ⟨h1, h2, h3⟩ := h
+      refine ⟨?_, h3⟩
+      rw [← (c03_latin1_lead_facts x).2 hx, ← (c03_latin1_lead_facts y).2 hy, h1, h2]
+
+theorem c03_latin1Byte_ne_nil (x : UInt8) : latin1Byte x ≠ [] := by
+  unfold latin1Byte
+  split <;> simp
+
+theorem c03_latin1ToString_cons (x : UInt8) (s : Bytes) :
+    latin1ToString (x :: s) = latin1Byte x ++ latin1ToString s := by
+  simp only [latin1ToString, List.flatMap_cons]
+
+theorem c03_latin1ToString_inj (a b : Bytes) (h : latin1ToString a = latin1ToString b) : a = b := by
+  induction a generalizing b with
+  | nil =>
+    cases b with
+    | nil => rfl
+    | cons y b =>
+      rw [c03_latin1ToString_cons] at h
+      have hn := c03_latin1Byte_ne_nil y
+      cases hl : latin1Byte y with
+      | nil => exact absurd hl hn
+      | cons c cs =>
+        rw [hl] at h
+        simp [latin1ToString] at h
+  | cons x a ih =>
+    cases b with
+    | nil =>
+      rw [c03_latin1ToString_cons] at h
+      have hn := c03_latin1Byte_ne_nil x
+      cases hl : latin1Byte x with
+      | nil => exact absurd hl hn
+      | cons c cs =>
+        rw [hl] at h
+        simp [latin1ToString] at h
+    | cons y b =>
+      rw [c03_latin1ToString_cons, c03_latin1ToString_cons] at h
+      obtain ⟨rfl, h'⟩ := c03_latin1Byte_append_inj x y _ _ h
+      rw [ih b h']
 
 end SigV4
